@@ -833,3 +833,102 @@ def sharing_cases(rng):
             for n in (2, 3):
                 out += lab([unify(rng, _wide_tree(Tree(rng, full=True), ty), kind, n)], f"unified:{kind}")
     return out
+
+
+# ------------------------------------------------------------------ follow-up (wave 6): distinct tags, one joined text
+# A tag is the *pair* (label, value).  An implementation that keys its tag table on a text built from the pair
+# (`f"{key}:{value}"`, `key + value`, `"/".join(...)`, a stripped / lower-cased / normalised text, …) gives one id to
+# two distinct tags whose texts coincide.  The families below are lists of DISTINCT pairs with one joined text under
+# some separator at shifted positions; the harness itself identifies a tag by the tuple (key, value) throughout.
+SEPARATORS = [":", "=", ",", "|", "/", "\x00", " ", "::", "\t", "-", "_", ".", ";", "\n", "\\", "#", "@", "', '"]
+
+
+def colliding_tag_families():
+    fams = []
+    a, b, c = "time", "dawn", "early"
+    for sep in SEPARATORS:
+        # the separator inside the value / inside the label:  a|b·c   a·b|c
+        fams.append((f"sep {sep!r} shifted", [(a, b + sep + c), (a + sep + b, c)]))
+        # a label that is another label plus the separator; an empty value; a value that is the separator
+        fams.append((f"sep {sep!r} label=prefix+sep", [(a, sep + c), (a + sep, c)]))
+        fams.append((f"sep {sep!r} empty value", [(a + sep, ""), (a, sep)]))
+        # three tags, one text
+        fams.append((f"sep {sep!r} three-way", [(a, b + sep + c + sep + "x"), (a + sep + b, c + sep + "x"),
+                                               (a + sep + b + sep + c, "x")]))
+    # no separator at all (`key + value`, `"".join`), an empty label, label and value swapped (`sorted`, `set`)
+    fams.append(("concatenation", [("ab", "c"), ("a", "bc"), ("abc", "")]))
+    fams.append(("empty label", [("", "a:b"), (":a", "b"), ("", ":a:b")]))
+    fams.append(("swapped", [("a", "b"), ("b", "a")]))
+    # texts equal after a normalisation a sloppy key could apply: case, surrounding blanks, unicode forms
+    fams.append(("case", [("Time", "Dawn"), ("time", "dawn"), ("time", "Dawn")]))
+    fams.append(("blanks", [("time", "dawn"), ("time ", "dawn"), ("time", " dawn"), (" time", "dawn")]))
+    fams.append(("unicode forms", [("esp\u00e9cie", "\u00f1"), ("espe\u0301cie", "\u00f1"), ("esp\u00e9cie", "n\u0303")]))
+    # equal hashes are not equal keys; numbers as text
+    fams.append(("numeric text", [("n", "1"), ("n", "1.0"), ("n", "01"), ("n", "1e0")]))
+    return [(name, [{"key": k, "value": v} for k, v in pairs]) for name, pairs in fams]
+
+
+def substitute_tags(cj, mapping):
+    """the collection with every occurrence of the tag (key, value) replaced by mapping[(key, value)]"""
+    def walk(x, key):
+        if isinstance(x, dict):
+            if key in _TAG_HOLDERS and set(x) == {"key", "value"}:
+                return copy.deepcopy(mapping.get((x["key"], x["value"]), x))
+            return {k: walk(v, k) for k, v in x.items()}
+        if isinstance(x, list):
+            return [walk(v, key) for v in x]
+        return x
+    return walk(cj, None)
+
+
+def collide_tags(rng, cj, family, where="first"):
+    """the distinct tags of `cj` (traversal order) mapped one-to-one onto the members of `family` (as many as there
+    are; the other tags stay), at the first / last / random positions.  None when the collection has fewer than two
+    distinct tags or holds a member of the family already (the mapping must stay injective)."""
+    distinct = []
+    for d, _ in _occurrences(cj, "tag"):
+        i = (d["key"], d["value"])
+        if i not in distinct:
+            distinct.append(i)
+    members = [(m["key"], m["value"]) for m in family]
+    n = min(len(distinct), len(members))
+    if n < 2 or set(distinct) & set(members):
+        return None
+    if where == "first":
+        slots = distinct[:n]
+    elif where == "last":
+        slots = distinct[-n:]
+    else:
+        slots = rng.sample(distinct, n)
+    return substitute_tags(cj, {s: m for s, m in zip(slots, family[:n])})
+
+
+def colliding_tag_cases(rng):
+    """for every family: a wide tree of two collection types (all eight types in rotation) whose first / last distinct
+    tags are the family's members, in the family's order and reversed; plus, for every collection type, two tags of
+    one family on ONE object's tag list, and the family on the collection's own tag list."""
+    out = []
+    fams = colliding_tag_families()
+    for i, (name, fam) in enumerate(fams):
+        for j in range(2):
+            ty = aoefgen.TYPES[(2 * i + j) % len(aoefgen.TYPES)]
+            t = Tree(rng, full=True)
+            cj = collide_tags(rng, _wide_tree(t, ty), fam if j == 0 else fam[::-1], ["first", "last", "random"][(i + j) % 3])
+            if cj is not None:
+                out.append({"collection": cj, "audio_dir": None, "label": "colliding-tags", "family": name, "how": "plain"})
+    for k, ty in enumerate(aoefgen.TYPES):
+        name, fam = fams[(7 * k) % len(fams)]
+        t = Tree(rng, full=False)
+        tags = copy.deepcopy(fam)
+        ptags = [{"tag": copy.deepcopy(m), "score": num(0.5)} for m in fam]
+        if ty in ("recording_set", "dataset"):
+            cj = t.wrap(ty, recordings=[t.recording(tags=tags, owners=[], notes=[])])
+        elif ty in ANNOTATION_TYPES:
+            cj = t.wrap(ty, cas=[t.ca(sound_events=[], sequences=[], tags=tags[:1], notes=[])], tags=tags[::-1])
+        elif ty in PREDICTION_TYPES:
+            cj = t.wrap(ty, cps=[t.cp(sound_events=[], sequences=[], tags=ptags)])
+        else:
+            ca = t.ca(sound_events=[], sequences=[], tags=tags[1:], notes=[])
+            cj = t.wrap(ty, ces=[t.ce(a=ca, p=t.cp(clip=copy.deepcopy(ca["clip"]), sound_events=[], sequences=[], tags=ptags[:1]))])
+        out.append({"collection": cj, "audio_dir": None, "label": "colliding-tags", "family": name + " (one list)", "how": "plain"})
+    return out
